@@ -87,6 +87,8 @@ func runNodeMode(args []string) error {
 	seeds := fs.String("seeds", "", "comma-separated addresses to dial")
 	reachedFile := fs.String("reached-file", "", "create this file when the target height is reached")
 	waitFiles := fs.String("wait-files", "", "then keep running until all these files exist (comma-separated)")
+	pex := fs.Bool("pex", false, "run the peer-exchange reactor")
+	stopFile := fs.String("stop-file", "", "stop in order as soon as this file exists (the report then omits the blocks' bytes)")
 	fs.Parse(args)
 	if *peerTimeout > 0 {
 		blockchain.VerifSetPeerTimeout(*peerTimeout)
@@ -138,6 +140,7 @@ func runNodeMode(args []string) error {
 	}
 	conf.Set("fast_sync", *fastSync)
 	conf.Set("seeds", *seeds)
+	conf.Set("pex_reactor", *pex)
 	config.SetDefaults(*dir, conf)
 	node, err := core.NewNode(conf, *dir, "evm")
 	if err != nil {
@@ -180,6 +183,11 @@ func runNodeMode(args []string) error {
 				}
 			}
 		}
+		if *stopFile != "" {
+			if _, err := os.Stat(*stopFile); err == nil {
+				break
+			}
+		}
 		if h >= sc.Target {
 			if *reachedFile != "" {
 				ioutil.WriteFile(*reachedFile, []byte("reached"), 0644)
@@ -212,7 +220,9 @@ func runNodeMode(args []string) error {
 			continue
 		}
 		rep.Blocks = append(rep.Blocks, fmt.Sprintf("%d:%x|%x|%x|%d", h, b.Hash(), b.Header.AppHash, b.Header.ReceiptsHash, len(b.Data.Txs)))
-		rep.Wire = append(rep.Wire, hexs(wire.BinaryBytes(b)))
+		if *stopFile == "" {
+			rep.Wire = append(rep.Wire, hexs(wire.BinaryBytes(b)))
+		}
 	}
 	for i := 0; i < 3; i++ {
 		a := appAddr(i)
